@@ -157,16 +157,18 @@ def state_components(w, mon, prefix=''):
     if local.db_context_counter: out.append(prefix + 'db_context_counter-nonzero')
     con = prov.pool.con
     att = mon.close_attempts
+    pooled = None
     if con is not None:
-        if att.get(con, 0): out.append(prefix + 'pooled-connection-was-closed')
+        pooled = con.vf_serial
+        if att.get(pooled, 0): out.append(prefix + 'pooled-connection-was-closed')
         else:
             try:
                 if con.in_transaction: out.append(prefix + 'pooled-connection-in-transaction')
             except Exception as e: out.append(prefix + 'pooled-connection-unusable')
-    for c in fx.REGISTRY:
-        n = att.get(c, 0)
+    for serial, ref, thread in fx.REGISTRY:
+        n = att.get(serial, 0)
         if n > 1: out.append(prefix + 'connection-closed-twice')
-        elif n == 0 and c is not con and c.vf_thread == mon.thread: out.append(prefix + 'dropped-connection-never-closed')
+        elif n == 0 and serial != pooled and thread == mon.thread: out.append(prefix + 'dropped-connection-never-closed')
     return out
 
 def followup_write(w, title, result):
@@ -177,7 +179,7 @@ def followup_write(w, title, result):
     except BaseException as e:
         result.append('%s' % type(e).__name__)
 
-def followups(w, mon, lock_held):
+def followups(w, mon, lock_held, patience=1):
     """same-thread and new-thread write sessions after the faulted program"""
     out = []
     if lock_held: return out, False        # already a violation; a write would block this thread for good
@@ -191,7 +193,7 @@ def followups(w, mon, lock_held):
             try: w.db.disconnect()
             except Exception: r2.append('disconnect-failed')
     th = threading.Thread(target=body, daemon=True)
-    th.start(); th.join(JOIN_TIMEOUT)
+    th.start(); th.join(JOIN_TIMEOUT * patience)
     if th.is_alive(): out.append('followup-new-thread-blocked')
     elif r2 != ['ok']: out.append('followup-new-thread-failed:' + '+'.join(r2))
     rows = dict(w.dump(tables=['Group']))['Group'] or ()
@@ -203,17 +205,18 @@ def followups(w, mon, lock_held):
 def leak_components(w, mon):
     out = []
     con = w.db.provider.pool.con
-    for c in fx.REGISTRY:
-        n = mon.close_attempts.get(c, 0)
+    pooled = con.vf_serial if con is not None else None
+    for serial, ref, thread in fx.REGISTRY:
+        n = mon.close_attempts.get(serial, 0)
         if n > 1: out.append('after-followups:connection-closed-twice')
-        elif n == 0 and c is not con: out.append('after-followups:connection-leaked')
+        elif n == 0 and serial != pooled: out.append('after-followups:connection-leaked')
     return out
 
-def examine(w, x):
+def examine(w, x, patience=1):
     mon = x.mon
     x.notes.append(('pooled', w.db.provider.pool.con is not None))
     comps = state_components(w, mon)
-    more, ran = followups(w, mon, any(c.endswith('lock-held') for c in comps))
+    more, ran = followups(w, mon, any(c.endswith('lock-held') for c in comps), patience)
     comps += more
     if ran:
         comps += [c for c in state_components(w, mon, 'after-followups:') if c not in ('after-followups:dropped-connection-never-closed',)]
@@ -278,6 +281,12 @@ def run_shape(task):
         st['executions'] += 1
         comps = examine(w, x)
         w.hygiene()                 # whatever was left behind has been judged; nothing may leak into the next item of this process
+        if comps:                   # a violation must reproduce before it is reported (a join timeout under load does not)
+            y = w.run(prog, plan, warm=warm)
+            again = examine(w, y, patience=3)
+            w.hygiene()
+            if again != comps: sub.count('components_not_reproduced', len(set(comps) ^ set(again)))
+            comps = [c for c in comps if c in again]
         if plan:
             if x.fired: st['fired'] += 1; sub.count('plans_fired')
             else: sub.count('plans_not_fired')
